@@ -6,7 +6,7 @@
 EXTENDS IR, BVInt, TLC
 VARIABLES a, b
 Init == a \in U8 /\ b = 0
-InitQ == a \in {0, 1, 2, 3, 5, 8, 16, 31, 64, 100, 127, 128, 129, 200, 254, 255} /\ b = 0   \* quick tier
+InitQ == a \in {0, 1, 3, 64, 127, 128, 200, 255} /\ b = 0   \* quick tier
 Next == b < 255 /\ b' = b + 1 /\ a' = a
 
 V(n, s) == [n |-> n, s |-> s, t |-> FALSE]
